@@ -880,10 +880,47 @@ func (x *c10Core) crashAll(n int, both bool) {
 	}
 }
 
+// c10RefusedUnseal: an unseal that is REFUSED after the barrier was opened (the marker of an interrupted declarative
+// self-initialisation makes checkSelfInit refuse every unseal) must leave the node sealed in the property's sense: the
+// barrier sealed and without key material, not only the core's flag set. Op line: refusedunseal => <unseal answer>|
+// core:<sealed|unsealed>|barrier:<sealed|open>|keyring:<none|held>|get:<class of a barrier read>
+func c10RefusedUnseal(t *testing.T, out *vh.Out) {
+	p := &c10Phys{vhPhys: vhNewPhys(t), t: t}
+	c, keys, _ := vhNewCore(t, p, nil, nil)
+	out.Reset()
+	if err := c.MarkSelfInitStarted(vhRootCtx()); err != nil {
+		t.Fatalf("MarkSelfInitStarted: %v", err)
+	}
+	if err := TestCoreSeal(c); err != nil {
+		t.Fatalf("seal: %v", err)
+	}
+	res, _ := c10Feed(c, keys)
+	core, bar, kr, get := "unsealed", "open", "held", "served"
+	if c.Sealed() {
+		core = "sealed"
+	}
+	if c.barrier.Sealed() {
+		bar = "sealed"
+	}
+	if k, err := c.barrier.Keyring(); err != nil || k == nil {
+		kr = "none"
+	}
+	if _, err := c.barrier.Get(context.Background(), "core/mounts"); err != nil {
+		get = "refused"
+	}
+	line := fmt.Sprintf("%s|core:%s|barrier:%s|keyring:%s|get:%s", res, core, bar, kr, get)
+	if core == "sealed" && (bar != "sealed" || kr != "none" || get != "refused") {
+		line += "!VIOL:after a refused unseal the node reports itself sealed but its barrier is open / holds the keyring / serves reads: " + line + "#refused-unseal-leaves-barrier-open"
+	}
+	out.Op(line, "refusedunseal")
+	_ = c.Shutdown()
+}
+
 func TestVerifC10Core(t *testing.T) {
 	out := vh.Open()
 	defer out.Close()
 	rng := vh.NewRand(vh.Seed())
+	c10RefusedUnseal(t, out)
 	nCases := vh.EnvInt("VERIF_C10_CORE_CASES", 60)
 	if vh.Thorough() {
 		nCases = vh.EnvInt("VERIF_C10_CORE_CASES", 1500)
